@@ -4,6 +4,8 @@ C04 — writes through any handle never clobber changes made via other handles.
 import SC.Lemmas.Seq
 import SC.Lemmas.Refine
 import SC.Lemmas.Path
+import SC.Lemmas.IdHist
+import SC.Lemmas.WfHist
 import SC.Lemmas.OpTable
 import SC.Lemmas.Natural
 import SC.Table
@@ -199,6 +201,101 @@ example :
      | some x => Tr.same x (.dict () [(.s "a", .list () [.leaf (.bool true),
           .dict () [(.s "z", .list () []), (.s "q", .leaf (.int 7))], .leaf (.int 9)]), (.s "c", .leaf .null)] : J)
      | none => false) = true := by
+  decide
+
+/-- THE IDENTITY HYPOTHESES HOLD IN EVERY REACHABLE STATE.  After any history of public calls
+(through any handles, any operations and arguments, returning or raising), constructor calls and
+outside writers, the identities in the objects' trees are pairwise distinct — within each tree and
+across objects — and below the counter.  (Induction over the history; per step: the merge
+`updNode_ids`, every operation body `runBody_ids`, the store through a handle `replace_ids`.) -/
+theorem C04_identities_distinct_in_every_history (fams : List Fam) (history : List SStep) :
+    IdOK (srun (State.empty fams) history) :=
+  srun_idOK history _ (empty_idOK fams)
+
+/-- ... and every identity in an object's tree is recorded as allocated for that object (the
+bookkeeping by which a nested child finds the root that loads and saves for it), in every
+reachable state. -/
+theorem C04_child_knows_its_root_in_every_history (fams : List Fam) (history : List SStep)
+    (oi : Nat) (o : Obj) (p : List Seg) (c : T) (id : Nat) :
+    let s := srun (State.empty fams) history
+    s.objs[oi]? = some o → Tr.sub p o.root = some c → c.id? = some id → s.ownerOf id = some oi := by
+  intro s ho hsub hid
+  have hown := (srun_ownOK history _ (empty_idOK fams) (empty_ownOK fams)).2
+  exact hown.owner oi o ho id (id_mem_of_sub p o.root c id hsub hid)
+
+/-- ... and keys are unique everywhere (objects' trees and backends) in every state reachable by a
+history whose outside data — arguments, constructor data, outside writers' content — has no
+duplicate keys (automatic for Python values; `J` association lists could have them). -/
+theorem C04_keys_unique_in_every_history (fams : List Fam) (history : List SStep)
+    (ha : ∀ st ∈ history, SStep.argsWf st = true) : WfOK (srun (State.empty fams) history) :=
+  srun_wfOK history _ (empty_wfOK fams) ha
+
+/-- C04, ROOT HANDLE, IN ANY REACHABLE STATE: every state hypothesis of
+`C04_call_runs_on_backend_content` is discharged by the history invariants.  What remains is about
+the backend's current content `d` only: valid data of the object's kind. -/
+theorem C04_call_in_any_history (fams : List Fam) (history : List SStep)
+    (ha : ∀ st ∈ history, SStep.argsWf st = true) (oi : Nat) (o : Obj) (d : J) (op : Op) :
+    let s := srun (State.empty fams) history
+    s.objs[oi]? = some o → s.store o.res = some d → Valid (s.fam o) d → sameKind o.root d = true →
+    op.isOverwrite = false → op.skipsLoad = false → preValidate (s.fam o) o.root.isDict op = none →
+    let t := (updNode (s.fam o) o.root d s.next).val
+    let r := runBody (s.fam o) t op (loadRoot s oi).1.next
+    Eqv t d ∧ t.wf = true ∧
+    (call s (.root oi) op).2 = (match r.err with | some e => .error e | none => .ok r.out) ∧
+    (op.isRead = false → (call s (.root oi) op).1.store o.res = some r.node.toBase) ∧
+    (op.isRead = true → (call s (.root oi) op).1.stores = s.stores) := by
+  intro s ho hst hv hk hno hns hpre
+  have hw : WfOK s := srun_wfOK history _ (empty_wfOK fams) ha
+  exact call_root_refines s oi o d op ho hst hv (store_wf hw hst) (hw.objs o (List.mem_of_getElem? ho)) hk hno hns hpre
+
+/-- C04, NESTED CHILD HANDLE AT ANY DEPTH, IN ANY REACHABLE STATE: every state hypothesis of
+`C04_child_call_runs_on_backend_content` — distinct identities, ownership, unique keys — is
+discharged by the history invariants.  What remains is about the backend's current content `d`
+only: valid data with containers of the same kind along the handle's path (otherwise the handle is
+detached — the converse case, decided by the oracles). -/
+theorem C04_child_call_in_any_history (fams : List Fam) (history : List SStep)
+    (ha : ∀ st ∈ history, SStep.argsWf st = true)
+    (oi id : Nat) (o : Obj) (d : J) (p : List Seg) (c : T) (op : Op) :
+    let s := srun (State.empty fams) history
+    s.objs[oi]? = some o → s.store o.res = some d →
+    Tr.sub p o.root = some c → c.id? = some id →
+    Valid (s.fam o) d → kindsMatch p o.root d = true → op.skipsLoad = false →
+    preValidate (s.fam o) c.isDict op = none →
+    ∃ c' dc, Tr.sub p (updNode (s.fam o) o.root d s.next).val = some c' ∧ c'.id? = some id ∧
+      Tr.sub p d = some dc ∧ Eqv c' dc ∧
+      Eqv (updNode (s.fam o) o.root d s.next).val d ∧
+      (call s (.node id) op).2 =
+        (match (runBody (s.fam o) c' op (loadRoot s oi).1.next).err with
+         | some e => .error e
+         | none => .ok (runBody (s.fam o) c' op (loadRoot s oi).1.next).out) ∧
+      (op.isRead = false → (call s (.node id) op).1.store o.res =
+        some (Tr.setSub p (updNode (s.fam o) o.root d s.next).val.toBase
+          (runBody (s.fam o) c' op (loadRoot s oi).1.next).node.toBase)) ∧
+      (op.isRead = true → (call s (.node id) op).1.stores = s.stores) := by
+  intro s ho hst hsub hid hv hk hns hpre
+  obtain ⟨hok, hown⟩ := srun_ownOK history _ (empty_idOK fams) (empty_ownOK fams)
+  have hw : WfOK s := srun_wfOK history _ (empty_wfOK fams) ha
+  have hsl := ids_sublist_flat s.objs oi o ho
+  have hmem : id ∈ Tr.ids o.root := id_mem_of_sub p o.root c id hsub hid
+  refine call_child_refines s oi id o d p c op ho hst (hown.owner oi o ho id hmem) hsub hid
+    (List.Nodup.sublist hsl hok.nodup) (fun i hi => hok.bound i (hsl.subset hi)) ?_ hv
+    (store_wf hw hst) (hw.objs o (List.mem_of_getElem? ho)) hk hns hpre
+  intro j o' hj ho' hin
+  exact flat_disjoint s.objs j oi o' o hok.nodup ho' ho hj id hin hmem
+
+/-- non-vacuity: a history — construct with nested data, outside rewrite, write through the nested
+child obtained from a read — after which the hypotheses hold and the call lands at the path -/
+example :
+    let fam : Fam := ⟨[.requireStringKey, .jsonFormat], [.requireStringKey, .jsonFormat]⟩
+    let d0 : J := .dict () [(.s "a", .list () [.leaf (.int 1), .dict () [(.s "k", .leaf (.int 1))]])]
+    let d1 : J := .dict () [(.s "a", .list () [.leaf (.bool true), .dict () [(.s "z", .list () [])]])]
+    let s := srun (State.empty [fam]) [.openObj true 0 (some d0), .ext 0 d1,
+      .call (.node 2) (.dSetitem (.s "q") (.leaf (.int 7))), .ext 0 d0]
+    ([SStep.openObj true 0 (some d0), .ext 0 d1,
+      .call (.node 2) (.dSetitem (.s "q") (.leaf (.int 7))), .ext 0 d0].all SStep.argsWf) = true ∧
+    ((s.objs[0]?).map (fun o => kindsMatch [.key (.s "a"), .idx 1] o.root d0 && o.root.wf &&
+        ((Tr.sub [.key (.s "a"), .idx 1] o.root).bind Tr.id? == some 2))) = some true ∧
+    s.ownerOf 2 = some 0 := by
   decide
 
 end SC.Props
